@@ -1,5 +1,6 @@
 import Pyunicorn.Lemmas.Memo
 import Pyunicorn.Lemmas.MemoNested
+import Pyunicorn.Lemmas.MemoMode
 import Pyunicorn.Generated.StructC01
 /-!
 # C01 — Results always reflect the object's current state (cache coherence)
@@ -163,7 +164,117 @@ example : AllCoherent (nrun nToyGood State.init [.query 1 0, .mutate 0, .query 0
 example : ((nquery nToyGood 1 (nquery nToyGood 1 (nquery nToyGood 1 State.init 0 0).state 0 1).state
     0 2).state.cache.map (·.arg)) = [2, 1] := by decide
 
+/-- **Coherence with raising calls** (round 4).  A history may contain, besides mutators, queries
+and evictions, calls that *raise* — before any nested cached call, between two of them, or inside
+a nested call at any depth (`path`).  The nested calls that returned keep their cache entries,
+the raising call stores nothing.  Every query of such a history still returns what a newly
+constructed object computes from the current fields. -/
+theorem ncoherent_with_exceptions_from (t : NTable) (hwf : nwf t = true) (ops : List XOp)
+    (s : State) (h : NInv t s) : AllCoherent (xrun t s ops) := by
+  induction ops generalizing s with
+  | nil => intro o ho; simp [xrun] at ho
+  | cons op ops ih =>
+    obtain ⟨hinv, hout⟩ := xinv_step t hwf s op h
+    intro o ho r c hrc
+    simp only [xrun, List.mem_cons] at ho
+    rcases ho with rfl | ho
+    · exact hout r c hrc
+    · exact ih _ hinv o ho r c hrc
+
+theorem ncoherent_with_exceptions (t : NTable) (hwf : nwf t = true) (ops : List XOp) :
+    AllCoherent (xrun t State.init ops) :=
+  ncoherent_with_exceptions_from t hwf ops State.init (ninv_init t)
+
+/-- non-vacuity: method 1 calls method 0; `1(0)` raises after its nested call returned: the callee's
+entry is there (the next `0(0)` is a hit), nothing is stored for method 1 -/
+example : ((nabort nToyGood 2 State.init 1 0 [1]).cache.map (·.m)) = [0] := by decide
+example : ((nabort nToyGood 2 State.init 1 0 [0]).cache.map (·.m)) = [] := by decide
+example : AllCoherent (xrun nToyGood State.init
+    [.raises 1 0 [1], .op (.mutate 0), .op (.query 1 0), .raises 1 0 [0, 0], .op (.query 0 0)]) :=
+  ncoherent_with_exceptions nToyGood (by decide) _
+
 end Pyunicorn.Memo
+
+
+/-! ### Round 4: stored state under re-initialising mutators — the mode history does not leak
+
+`Model/MemoMode.lean`: a public mutator is the ordered list of its assignments `self.f = value`
+(helpers, base-class `__init__`s and property setters inlined, parameters bound symbolically);
+a value is a literal constant or an expression over the call's arguments and the current values
+of the fields `deps`; an assignment under an undecided `if` may or may not execute (`mask`).
+A field that the class assigns two different constants is a *mode* field
+(`RecurrenceNetwork.directed`: `Network.__init__(self, A, directed=True)` in
+`set_fixed_local_recurrence_rate`, `directed=False` in the other setters). -/
+namespace Pyunicorn.Mode
+
+/-- **No leak of the mode history.**  Let the table satisfy `modeWf`, `o` be one of its public
+mutators and `T = taintOf (modeFields t) o` the fields whose content may depend on the mode
+history while `o` runs.  Take two objects in *arbitrary* states that agree outside `T` (same
+current inputs; their mode fields and everything derived from them may differ — e.g. a live
+object with any history and a newly constructed one), and run `o` with the same argument along
+the same path on both.  Then they agree again outside `T`, and on **every mode field that the
+executed path assigns** — `directed` after `set_fixed_threshold` does not depend on whether
+`set_fixed_local_recurrence_rate` was called before. -/
+theorem mode_no_leak (t : MTable) (hwf : modeWf t = true) (o : List Event) (ho : o ∈ t.mutators)
+    (s1 s2 : MState) (hagree : ∀ f, f ∉ taintOf (modeFields t) o → s1 f = s2 f)
+    (arg : Nat) (mask : List Bool) :
+    (∀ f, f ∉ taintOf (modeFields t) o →
+      execEvents arg o mask s1 f = execEvents arg o mask s2 f) ∧
+    (∀ f, f ∈ modeFields t → assigned o mask f = true →
+      execEvents arg o mask s1 f = execEvents arg o mask s2 f) := by
+  have h := (List.all_eq_true.mp hwf) o ho
+  simp only [mutOk, Bool.and_eq_true] at h
+  obtain ⟨⟨_, hcl⟩, hM⟩ := h
+  have hM' : ∀ e ∈ o, e.target ∈ modeFields t →
+      srcClean (taintOf (modeFields t) o) e.src = true := by
+    intro e he hin
+    have := (List.all_eq_true.mp hM) e he
+    simp only [Bool.or_eq_true, Bool.not_eq_eq_eq_not, Bool.not_true, List.contains_eq_mem,
+      decide_eq_false_iff_not] at this
+    rcases this with h1 | h1
+    · exact absurd hin h1
+    · exact h1
+  obtain ⟨h1, h2⟩ := exec_agree (taintOf (modeFields t) o) (modeFields t) arg o mask s1 s2 hcl hM' hagree
+  exact ⟨h1, fun f hf ha => h2 f hf (Or.inr ha)⟩
+
+/-- the taint set contains the mode fields (so "agree outside `taintOf`" never asks the two
+objects to agree on a mode field) -/
+theorem mode_subset_taint (t : MTable) (hwf : modeWf t = true) (o : List Event)
+    (ho : o ∈ t.mutators) : ∀ f ∈ modeFields t, f ∈ taintOf (modeFields t) o := by
+  have h := (List.all_eq_true.mp hwf) o ho
+  simp only [mutOk, Bool.and_eq_true] at h
+  intro f hf
+  have := (List.all_eq_true.mp h.1.1) f hf
+  simpa using this
+
+/-- **Leak witness.**  A mutator whose only assignment of `f` feeds the field from its own stored
+value (`Network.__init__(self, A, directed=self.directed)`) returns different states after
+histories that left different constants in `f`: the value depends on the history. -/
+theorem mode_leak_witness (f site arg c1 c2 : Nat) (hc : c1 ≠ c2) (s1 s2 : MState)
+    (h1 : s1 f = .const c1) (h2 : s2 f = .const c2) :
+    execEvents arg [⟨f, .expr site [f]⟩] [] s1 f ≠ execEvents arg [⟨f, .expr site [f]⟩] [] s2 f := by
+  simp [execEvents, evalSrc, h1, h2, hc]
+
+/-! non-vacuity: field 0 = `directed`, field 1 = `R`, field 2 = `graph`; constants 0 = False,
+1 = True.  Mutator 0 = `set_fixed_threshold` (as written), mutator 1 =
+`set_fixed_local_recurrence_rate`; in `toyLeak` mutator 0 passes `directed=self.directed`. -/
+def toyMode : MTable :=
+  ⟨[⟨1, .expr 0 []⟩, ⟨0, .const 0⟩, ⟨2, .expr 1 [1, 0]⟩],
+   [[⟨1, .expr 2 []⟩, ⟨0, .const 0⟩, ⟨2, .expr 3 [1, 0]⟩],
+    [⟨1, .expr 4 []⟩, ⟨0, .const 1⟩, ⟨2, .expr 3 [1, 0]⟩]]⟩
+def toyLeak : MTable :=
+  ⟨toyMode.ctor,
+   [[⟨1, .expr 2 []⟩, ⟨0, .expr 5 [0]⟩, ⟨2, .expr 3 [1, 0]⟩],
+    [⟨1, .expr 4 []⟩, ⟨0, .const 1⟩, ⟨2, .expr 3 [1, 0]⟩]]⟩
+
+example : modeFields toyMode = [0] := by decide
+example : modeWf toyMode = true := by decide
+example : modeWf toyLeak = false := by decide
+example : modeOffending toyLeak = [(0, 1)] := by decide
+example : taintOf (modeFields toyMode) [⟨1, .expr 2 []⟩, ⟨0, .const 0⟩, ⟨2, .expr 3 [1, 0]⟩] = [2, 0] := by
+  decide
+
+end Pyunicorn.Mode
 
 /-! ### the tables of the current source -/
 namespace Pyunicorn.Generated.StructC01
@@ -204,5 +315,31 @@ theorem ncoherent_all (name : String) (t : NTable) (h : (name, t) ∈ allNTables
   have := nwf_all
   rw [List.all_eq_true] at this
   exact ncoherent_of_wf t (this (name, t) h) ops
+
+/-- … also when calls raise at any point of their nested computation -/
+theorem ncoherent_with_exceptions_all (name : String) (t : NTable) (h : (name, t) ∈ allNTables)
+    (ops : List XOp) : AllCoherent (xrun t State.init ops) := by
+  have := nwf_all
+  rw [List.all_eq_true] at this
+  exact ncoherent_with_exceptions t (this (name, t) h) ops
+
+/-! #### round 4: the assignment tables (constructor and every public mutator) of the current source -/
+open Pyunicorn.Mode in
+/-- in no class does a public mutator store, in a field that the class switches between
+constants (`RecurrenceNetwork.directed`, `Surrogates._normalized`), a value computed from a
+field that may carry the mode history -/
+theorem mode_wf_all : allMTables.all (fun nt => modeWf nt.2) = true := by decide +kernel
+
+open Pyunicorn.Mode in
+/-- hence on every class, two objects that agree outside the taint set of a public mutator agree
+after it on every mode field its executed path assigns -/
+theorem mode_no_leak_all (name : String) (t : MTable) (h : (name, t) ∈ allMTables)
+    (o : List Mode.Event) (ho : o ∈ t.mutators) (s1 s2 : MState)
+    (hagree : ∀ f, f ∉ taintOf (modeFields t) o → s1 f = s2 f) (arg : Nat) (mask : List Bool)
+    (f : Nat) (hf : f ∈ modeFields t) (ha : assigned o mask f = true) :
+    execEvents arg o mask s1 f = execEvents arg o mask s2 f := by
+  have := mode_wf_all
+  rw [List.all_eq_true] at this
+  exact (mode_no_leak t (this (name, t) h) o ho s1 s2 hagree arg mask).2 f hf ha
 
 end Pyunicorn.Generated.StructC01
